@@ -3,8 +3,13 @@
 package overlay
 
 import (
+	"bytes"
 	"encoding/json"
 	"fmt"
+	"go/ast"
+	"go/parser"
+	"go/printer"
+	"go/token"
 	"os"
 	"os/exec"
 	"path/filepath"
@@ -104,34 +109,36 @@ func Build(name string, rewrite func(path string, src []byte) ([]byte, bool)) (s
 	return exe, len(repl), nil
 }
 
-// RewriteImport returns a rewriter that replaces the import of package from by alias "to" in every file importing it.
+// RewriteImport returns a rewriter that makes every import of package from (whatever its local name) refer to package
+// to; an unnamed import gets the local name alias.
 func RewriteImport(from, alias, to string) func(string, []byte) ([]byte, bool) {
 	return func(path string, src []byte) ([]byte, bool) {
-		s := string(src)
-		lines := strings.Split(s, "\n")
+		if !bytes.Contains(src, []byte(`"`+from+`"`)) {
+			return nil, false
+		}
+		fset := token.NewFileSet()
+		f, err := parser.ParseFile(fset, path, src, parser.ParseComments)
+		if err != nil {
+			return nil, false
+		}
 		changed := false
-		inImport := false
-		for i, l := range lines {
-			t := strings.TrimSpace(l)
-			if strings.HasPrefix(t, "import (") {
-				inImport = true
+		for _, im := range f.Imports {
+			if im.Path.Value != `"`+from+`"` {
 				continue
 			}
-			if inImport && t == ")" {
-				inImport = false
-				continue
+			im.Path.Value = `"` + to + `"`
+			if im.Name == nil {
+				im.Name = ast.NewIdent(alias)
 			}
-			if (inImport && t == `"`+from+`"`) || t == `import "`+from+`"` {
-				lines[i] = strings.Replace(l, `"`+from+`"`, alias+` "`+to+`"`, 1)
-				changed = true
-			}
-			if strings.HasPrefix(t, "func ") {
-				break
-			}
+			changed = true
 		}
 		if !changed {
 			return nil, false
 		}
-		return []byte(strings.Join(lines, "\n")), true
+		var buf bytes.Buffer
+		if err := printer.Fprint(&buf, fset, f); err != nil {
+			return nil, false
+		}
+		return buf.Bytes(), true
 	}
 }
